@@ -620,6 +620,10 @@ def changed_elements(pt, bb, m):
     v = f._deref(f.arg_terms(bb)[2], point)
     if _nanish(v) and _whole_nan(v):
         return None
+    vs = mir.strip_refs(v)
+    if vs[0] == "call" and isinstance(vs[1], tuple) and vs[1] and vs[1][0] == "fnptr":
+        # the tuple written is the result of a function value handed in by the caller: not judged here
+        return "indirect"
     inp = _input_term(pt)
     es = E.elems(f, v, point)
     out = set()
@@ -667,6 +671,11 @@ def r_element_preserve(cx):
                         if ch is None:
                             cx.ob("R-ELEMENT-PRESERVE", key, True, "%s: NaN write (failure marker)" % name, where,
                                   nontrivial=False)
+                            continue
+                        if ch == "indirect":
+                            cx.ob("R-ELEMENT-PRESERVE", key, True,
+                                  "%s: the tuple written is computed by a function value handed in by the caller (not judged)" % name,
+                                  where, nontrivial=False)
                             continue
                         extra = ch - allowed
                         cx.ob("R-ELEMENT-PRESERVE", key, not extra,
